@@ -1527,6 +1527,25 @@ def check_namespace(chk, tier, pool):
                        replay={'driver': 'replay/c10_replay.py namespace', 'counterexample': w}, reproduced=True)
 
 
+def check_sql_effect(chk, tier, pool):
+    """SQL path of UpdateMetadata, effect stated per NAMED trial -- a bounded stand-in on the real code (the deductive SQL refinement is C07/C05)."""
+    chk.function(SQL, 'SQLDataStore.update_metadata', role='bounded stand-in')
+    name = 'C10.sql.UpdateMetadata.effect_per_named_trial'
+    bound = ('real VizierServicer on sqlite:///:memory:, 3-trial study with prior metadata; every ordered selection of 1..3 named trials (and repeated '
+             'ids) in one delta + a study-level entry: ok => each named trial gets exactly its own updates, every other entry untouched; then a delta '
+             'naming a missing trial: error reported and nothing stored')
+    res, raw = pool.get('sql_effect')
+    if res is None:
+        chk.error(name, 'bounded stand-in did not run: %s' % raw[-500:])
+    elif res.get('failures'):
+        chk.bounded_standin(name, bound, 'violated', res)
+        chk.obligation(name, 'SQLDataStore.update_metadata', 'bounded-native', report.VIOLATED, 0.0, detail={'scenarios': res.get('scenarios')},
+                       model='UpdateMetadata on the SQL datastore does not apply each update to the trial it names: %s' % json.dumps(res['failures'][0])[:1500],
+                       replay={'driver': 'replay/c10_replay.py sql_effect', 'failures': res['failures']}, reproduced=True)
+    else:
+        chk.bounded_standin(name, bound, 'held', {'scenarios': res.get('scenarios')})
+
+
 # =========================================================================================== main
 def main(tier):
     chk = report.Check('C10', tier, level='proof',
@@ -1540,7 +1559,7 @@ def main(tier):
               'logging has no effect'):
         chk.assume(a)
     pool = ckit.ReplayPool()
-    for key in ('ram_partial', 'servicer_join', 'trial_id_zero', 'metadata_core', 'inram_update_metadata'):
+    for key in ('ram_partial', 'servicer_join', 'trial_id_zero', 'metadata_core', 'inram_update_metadata', 'sql_effect'):
         pool.start(key, 'c10_replay.py', [key])
     pool.start('namespace', 'c10_replay.py', ['namespace'], {'max_len': 4, 'max_comp': 3})
     for fname in ('merge_study_metadata', 'merge_trial_metadata'):
@@ -1551,5 +1570,6 @@ def main(tier):
     check_kv_conversion(chk, tier)
     check_inram_update(chk, tier, pool)
     check_policy_frame(chk, tier)
+    check_sql_effect(chk, tier, pool)
     check_namespace(chk, tier, pool)
     return chk.finish(min_obligations=10)
